@@ -261,11 +261,18 @@ def run(case, st):
             apply(sec, key, kind, val, 'argv')
         argv = build_argv(case['argv'])
         try:
-            if paths:
-                cfg.read(paths if len(paths) > 1 or paths == [] else (paths if common.case_hash(case)[0] % 2 else paths[0]))
+            files_arg = paths if len(paths) > 1 or paths == [] else (paths if common.case_hash(case)[0] % 2 else paths[0])
+            # two orders of the same public calls: the one of plasTeX.client.main (parser built and command line parsed
+            # before the files are read) and the one of the unit tests (files first)
+            order = 'client' if common.case_hash(case)[1] % 3 else 'files-first'
+            st.feature('call-order', order)
+            if order == 'files-first' and paths:
+                cfg.read(files_arg)
             parser = ArgumentParser('plasTeX')
             cfg.registerArgparse(parser)
             data = vars(parser.parse_args(argv))
+            if order == 'client' and paths:
+                cfg.read(files_arg)
             cfg.updateFromDict(data)
         except common.CaseTimeout:
             raise
